@@ -1611,8 +1611,10 @@ def _handle_count_stage(in_collection, database, options):
 def _handle_facet_stage(in_collection, database, options):
     out_collection_by_pipeline = {}
     for pipeline_title, pipeline in options.items():
+        # Each sub-pipeline works on its own copy of the input: stages that edit documents in
+        # place ($lookup, $addFields on a dotted path) must not be seen by the other ones.
         out_collection_by_pipeline[pipeline_title] = list(process_pipeline(
-            in_collection, database, pipeline, None))
+            copy.deepcopy(in_collection), database, pipeline, None))
     return [out_collection_by_pipeline]
 
 
